@@ -2,6 +2,7 @@ import Splipy.Generated.PyBasis
 import Splipy.Model.Order
 import Splipy.Model.Measure
 import Splipy.Lemmas.C20Bisect
+import Splipy.Lemmas.C10Cummax
 import Splipy.Model.Orientation
 import Mathlib.Tactic.NormNum
 import Mathlib.Tactic.Ring
@@ -184,7 +185,7 @@ theorem mk?_unfold (p : ℕ) (knots : Array K) (periodic : Int) (tol : K) :
           (List.range ((p : Int) + max periodic (-1) - 1).toNat).any
             (fun (i : ℕ) => perBad p knots (max periodic (-1)) tol i) = true then .error .value
       else if (List.range (knots.size - 1)).any (sortBad knots tol) = true then .error .value
-      else .ok { order := p, knots := knots, periodic := max periodic (-1) } := rfl
+      else .ok { order := p, knots := Basis.cummax knots, periodic := max periodic (-1) } := rfl
 
 /-! ### method: __init__ -/
 
@@ -979,7 +980,8 @@ theorem collapse_fold (N : Array K) (n : ℕ) (hn : 0 < n) (j : ℕ) (hj : j ≤
 
 
 theorem mk?_ok_eq (p : ℕ) (knots : Array K) (per : Int) (tol : K) (ib : Basis K)
-    (h : Basis.mk? p knots per tol = .ok ib) : ib = { order := p, knots := knots, periodic := max per (-1) } := by
+    (h : Basis.mk? p knots per tol = .ok ib) :
+    ib = { order := p, knots := Basis.cummax knots, periodic := max per (-1) } := by
   rw [mk?_unfold] at h
   split at h
   · cases h
@@ -1764,6 +1766,310 @@ theorem _root_.PyBasis_insert_knot_eq_sorted [FloorRing K] (b : Basis K) (tol x0
   by_contra hcon
   have := hhi (b.order - 1) (by change b.bisectR x0 ≤ _; omega) (by omega)
   exact absurd hx (not_le.mpr this)
+
+/-! #### the cover branch -/
+
+/-- one pass of the cover loop of the hand model (`Basis.insertKnot`, cover branch) -/
+def coverStepM [FloorRing K] (T : K) (st : Basis K × Mat K × K) : PyM (Basis K × Mat K × K) :=
+  match st.1.insertKnotPlain st.2.2 with
+  | .error e => .error e
+  | .ok (c', Ck) => .ok (c', Mat.mul Ck st.2.1, st.2.2 + T)
+
+/-- the state of the hand model's cover loop after `j` passes -/
+def coverIterM [FloorRing K] (T : K) (s0 : Basis K × Mat K × K) : ℕ → PyM (Basis K × Mat K × K)
+  | 0 => .ok s0
+  | j + 1 => match coverIterM T s0 j with
+    | .error e => .error e
+    | .ok st => coverStepM T st
+
+/-- a loop whose body does not use the loop variable is an iteration -/
+def iterM {σ : Type} (B : σ → PyM σ) : ℕ → σ → PyM σ
+  | 0, s => .ok s
+  | j + 1, s => match iterM B j s with
+    | .error e => .error e
+    | .ok s' => B s'
+
+theorem foldlM_const {α σ : Type} (l : List α) (B : σ → PyM σ) (s : σ) :
+    l.foldlM (fun s _ => B s) s = iterM B l.length s := by
+  induction l using List.reverseRecOn generalizing s with
+  | nil => rfl
+  | append_singleton l a ih =>
+    rw [List.foldlM_append, ih, List.length_append, List.length_singleton, iterM]
+    cases iterM B l.length s with
+    | error e => rfl
+    | ok s' =>
+      show [a].foldlM (fun s _ => B s) s' = B s'
+      rw [List.foldlM_cons]
+      cases B s' with
+      | error e => rfl
+      | ok s'' => rfl
+
+theorem forRange_const {σ : Type} (R : ℕ) (s : σ) (B : σ → PyM σ) :
+    forRange 0 (R : Int) s (fun _ st => B st) = iterM B R s := by
+  unfold forRange
+  rw [foldlM_const]
+  congr 1
+  unfold rangeI
+  simp
+
+theorem extract_min {α : Type} (xs : Array α) (m : ℕ) : xs.extract 0 (min m xs.size) = xs.extract 0 m := by
+  apply Array.ext'
+  simp [Array.toList_extract, List.extract_eq_take_drop]
+
+/-- `insert_knot` of the hand model in the cover branch: the loop, then the first `len(knots)+1`
+    knots and the first `n+1` rows. -/
+theorem insertKnot_cover_unfold [FloorRing K] (b : Basis K) (x0 x : K) (hw : wrapX b x0 = .ok x)
+    (hT : b.stop - b.start ≠ 0)
+    (hc : b.periodic ≥ 0 ∧ (b.knots.size : Int) - (b.order : Int) - (b.periodic + 1) < (b.order : Int) + b.periodic)
+    (hn : 1 ≤ b.numFunctions)
+    (hnI : (b.knots.size : Int) - (b.order : Int) - (b.periodic + 1) = (b.numFunctions : Int)) :
+    b.insertKnot x0 =
+      match coverIterM (b.stop - b.start)
+          ({ b with knots := b.coverKnots ((b.order + b.periodic.toNat + b.numFunctions - 1) / b.numFunctions) },
+           Basis.tileIdentity b.numFunctions
+             ((b.order + b.periodic.toNat + b.numFunctions - 1) / b.numFunctions), x)
+          ((b.order + b.periodic.toNat + b.numFunctions - 1) / b.numFunctions) with
+      | .error e => .error e
+      | .ok (cover, C, _) =>
+        .ok ({ b with knots := cover.knots.extract 0 (b.knots.size + 1) },
+             C.extract 0 (b.numFunctions + 1)) := by
+  have hiter : ∀ (T : K) (s0 : Basis K × Mat K × K) (R : ℕ),
+      (List.range R).foldlM (fun st _ => coverStepM T st) s0 = coverIterM T s0 R := by
+    intro T s0 R
+    induction R with
+    | zero => rfl
+    | succ R ih =>
+      rw [List.range_succ, List.foldlM_append, ih, coverIterM]
+      cases coverIterM T s0 R with
+      | error e => rfl
+      | ok st =>
+        show [R].foldlM (fun st _ => coverStepM T st) st = coverStepM T st
+        rw [List.foldlM_cons]
+        cases coverStepM T st with
+        | error e => rfl
+        | ok s => rfl
+  have hw' : b.insertWrap x0 = .ok x := by
+    rw [← hw]
+    unfold Basis.insertWrap wrapX
+    simp only []
+    rw [if_pos hc.1, if_pos hc.1]
+    by_cases hcc : x0 < b.start ∨ x0 > b.stop
+    · simp only [hcc, if_true, hT, if_false]
+    · simp only [hcc, if_false]
+  unfold Basis.insertKnot
+  rw [hw']
+  simp only []
+  rw [if_pos hc, hnI, if_neg (by omega), if_neg (by omega), ← hiter]
+  rfl
+
+/-- What a pass of the cover loop needs from its state `(cover, C, new_knot)`: the guards of
+    `insert_knot_fuel_plain` for the recursive call (a cover has at least `p+k` functions, sorted knots, a
+    non-collapsed domain) and matching shapes for `tmp @ C`.  All of them hold along the loop for a valid
+    periodic basis (`C04.cover_guards`). -/
+def StepGuard [FloorRing K] (st : Basis K × Mat K × K) : Prop :=
+  1 ≤ st.1.order ∧ -1 ≤ st.1.periodic ∧ st.1.order + 1 ≤ st.1.knots.size ∧
+  (0 ≤ st.1.periodic → (st.2.2 < st.1.start ∨ st.2.2 > st.1.stop) → st.1.stop - st.1.start ≠ 0) ∧
+  (∀ x, wrapX st.1 st.2.2 = .ok x → st.1.order ≤ st.1.insertMu x) ∧
+  ¬ (st.1.periodic ≥ 0 ∧ (st.1.knots.size : Int) - (st.1.order : Int) - (st.1.periodic + 1)
+      < (st.1.order : Int) + st.1.periodic) ∧
+  (∀ c' Ck, st.1.insertKnotPlain st.2.2 = .ok (c', Ck) →
+    ¬ (0 < Ck.size ∧ (Ck.getD 0 #[]).size ≠ st.2.1.size))
+
+/-- the state of the translated loop that stands for a state of the hand model's loop -/
+def coverPhi (st : Basis K × Mat K × K) : Mat K × Self K × K := (st.2.1, ofBasis st.1, st.2.2)
+
+/-- the body of the translated cover loop (it does not use the loop variable) -/
+def coverBody [FloorRing K] (f : ℕ) (tol T : K) (st22 : Mat K × Self K × K) : PyM (Mat K × Self K × K) := do
+  let __x ← PyBasis.insert_knot_fuel (f + 1) st22.2.1 tol st22.2.2
+  let tmp24 ← npMatmul __x.2 st22.1
+  Except.ok (tmp24, __x.1, st22.2.2 + T)
+
+theorem cover_body [FloorRing K] (f : ℕ) (tol T : K) (st : Basis K × Mat K × K) (hg : StepGuard st) :
+    coverBody f tol T (coverPhi st) = (coverStepM T st).map coverPhi := by
+  obtain ⟨g1, g2, g3, g4, g5, g6, g7⟩ := hg
+  unfold coverBody coverPhi coverStepM
+  simp only []
+  rw [insert_knot_fuel_plain f st.1 tol st.2.2 g1 g2 g3 g4 g5 g6]
+  cases h : st.1.insertKnotPlain st.2.2 with
+  | error e => rfl
+  | ok r =>
+    obtain ⟨c', Ck⟩ := r
+    simp only [map_ok, ok_bind, npMatmul]
+    rw [if_neg (g7 c' Ck h)]
+    rfl
+
+theorem iter_cover [FloorRing K] (f : ℕ) (tol T : K) (s0 : Basis K × Mat K × K) (R : ℕ)
+    (hsteps : ∀ j, j < R → ∀ st, coverIterM T s0 j = .ok st → StepGuard st) :
+    ∀ j, j ≤ R → iterM (coverBody f tol T) j (coverPhi s0) = (coverIterM T s0 j).map coverPhi := by
+  intro j
+  induction j with
+  | zero => intro _; rfl
+  | succ j ih =>
+    intro hj
+    rw [iterM, ih (by omega), coverIterM]
+    cases h : coverIterM T s0 j with
+    | error e => rfl
+    | ok st =>
+      simp only [map_ok]
+      exact cover_body f tol T st (hsteps j (by omega) st h)
+
+/-- `-(-a // n) = ⌈a / n⌉` on Python ints, as a natural-number quotient -/
+theorem neg_fdiv_neg (a n : ℕ) (hn : 0 < n) :
+    -(Int.fdiv (-(a : Int)) (n : Int)) = (((a + n - 1) / n : ℕ) : Int) := by
+  have h1 := Nat.div_add_mod (a + n - 1) n
+  have h2 := Nat.mod_lt (a + n - 1) hn
+  set R := (a + n - 1) / n with hR
+  have hnz : (0 : Int) < n := by exact_mod_cast hn
+  rw [Int.fdiv_eq_ediv_of_nonneg _ (le_of_lt hnz)]
+  have key : (-(a : Int)) / (n : Int) = -(R : Int) := by
+    have hu := (Int.ediv_emod_unique (a := -(a : Int)) (r := (n : Int) * R - a) (q := -(R : Int)) hnz).2
+      ⟨by ring, by
+        have : (a : Int) + n - 1 = n * R + ((a + n - 1) % n : ℕ) := by
+          have : ((a + n - 1 : ℕ) : Int) = ((n * R + (a + n - 1) % n : ℕ) : Int) := by rw [h1]
+          rw [Nat.cast_sub (by omega)] at this
+          push_cast at this ⊢
+          linarith
+        have h2' : (((a + n - 1) % n : ℕ) : Int) < n := by exact_mod_cast h2
+        have h3' : (0 : Int) ≤ (((a + n - 1) % n : ℕ) : Int) := Int.natCast_nonneg _
+        omega, by
+        have : (a : Int) + n - 1 = n * R + ((a + n - 1) % n : ℕ) := by
+          have : ((a + n - 1 : ℕ) : Int) = ((n * R + (a + n - 1) % n : ℕ) : Int) := by rw [h1]
+          rw [Nat.cast_sub (by omega)] at this
+          push_cast at this ⊢
+          linarith
+        have h3' : (0 : Int) ≤ (((a + n - 1) % n : ℕ) : Int) := Int.natCast_nonneg _
+        omega⟩
+    exact hu.1
+  rw [key, neg_neg]
+
+theorem insert_knot_fuel_cover [FloorRing K] (f : ℕ) (b : Basis K) (tol x0 x : K) (h1 : 1 ≤ b.order)
+    (hw : wrapX b x0 = .ok x) (k : ℕ) (hk : b.periodic = (k : Int))
+    (hn1 : 1 ≤ b.numFunctions)
+    (hsz : b.order + k + 1 + b.numFunctions = b.knots.size)
+    (hsmall : b.numFunctions < b.order + k) (hT : b.stop - b.start ≠ 0)
+    (hinit : PyBasis.init tol (b.order : Int)
+        (b.coverKnots ((b.order + k + b.numFunctions - 1) / b.numFunctions)) b.periodic
+      = .ok (ofBasis { b with knots := b.coverKnots ((b.order + k + b.numFunctions - 1) / b.numFunctions) }))
+    (hsteps : ∀ j, j < (b.order + k + b.numFunctions - 1) / b.numFunctions → ∀ st,
+      coverIterM (b.stop - b.start)
+        ({ b with knots := b.coverKnots ((b.order + k + b.numFunctions - 1) / b.numFunctions) },
+         Basis.tileIdentity b.numFunctions ((b.order + k + b.numFunctions - 1) / b.numFunctions), x) j = .ok st →
+      StepGuard st) :
+    PyBasis.insert_knot_fuel (f + 2) (ofBasis b) tol x0
+      = (b.insertKnot x0).map (fun r => (ofBasis r.1, r.2)) := by
+  have h2 : b.order ≤ b.knots.size := by omega
+  have hp : b.periodic ≥ 0 := by rw [hk]; omega
+  have hktn : b.periodic.toNat = k := by rw [hk]; rfl
+  have hnf : b.numFunctions = b.knots.size - b.order - (b.periodic + 1).toNat := rfl
+  have hnI : (b.knots.size : Int) - (b.order : Int) - (b.periodic + 1) = (b.numFunctions : Int) := by
+    rw [hk]; omega
+  have hcc : b.periodic ≥ 0 ∧ (b.knots.size : Int) - (b.order : Int) - (b.periodic + 1)
+      < (b.order : Int) + b.periodic := by
+    refine ⟨hp, ?_⟩
+    rw [hnI, hk]; omega
+  rw [PyBasis.insert_knot_fuel]
+  refine Eq.trans (bind_congr_left (A' := wrapX b x0) ?_) ?_
+  · simp only [PyBasis_start_eq b tol h1 h2, PyBasis_end_eq b tol h1 h2, ok_bind, ofBasis_periodic, pure_eq_ok, wrapX]
+    simp only [hp, if_true]
+    by_cases hc1 : x0 < b.start
+    · simp [hc1]
+    · by_cases hc2 : x0 > b.stop <;> simp [hc1, hc2]
+  · rw [hw]
+    simp only [ok_bind, ofBasis_knots, ofBasis_order, ofBasis_periodic,
+      PyBasis.num_functions, len, pure_eq_ok, PyBasis_start_eq b tol h1 h2, PyBasis_end_eq b tol h1 h2]
+    simp only [hcc.1, hcc.2, and_self, if_true]
+    rw [hnI]
+    set R := (b.order + k + b.numFunctions - 1) / b.numFunctions with hRdef
+    have hR : -(Int.fdiv (-((b.order : Int) + b.periodic)) (b.numFunctions : Int)) = (R : Int) := by
+      rw [hk, show ((b.order : Int) + (k : Int)) = ((b.order + k : ℕ) : Int) by push_cast; rfl]
+      exact neg_fdiv_neg (b.order + k) b.numFunctions (by omega)
+    unfold pyFloorDivI
+    rw [if_neg (by omega)]
+    simp only [ok_bind]
+    rw [hR]
+    have hR1 : 1 ≤ R := by
+      rw [hRdef]
+      exact Nat.div_pos (by omega) (by omega)
+    -- the knots of the cover
+    rw [(forRange_eq_foldl 0 (((R : Int) - 1) * (b.numFunctions : Int)) b.knots _
+      (fun (_ : ℕ) (a : Array K) => a.push (a.getD (a.size - b.numFunctions) 0 + (b.stop - b.start)))
+      (fun a => b.numFunctions ≤ a.size) (le_refl _) (by omega)
+      (by
+        intro i a h0 hi ha
+        refine ⟨?_, by simp; omega⟩
+        rw [getItem_neg _ (by omega) (by omega)]
+        simp only [ok_bind, append]
+        have : (-(b.numFunctions : Int) + (a.size : Int)).toNat = a.size - b.numFunctions := by omega
+        rw [this])).1]
+    have hfold : (List.range' (0 : Int).toNat (((R : Int) - 1) * (b.numFunctions : Int) - 0).toNat).foldl
+        (fun (s : Array K) (i : ℕ) => s.push (s.getD (s.size - b.numFunctions) 0 + (b.stop - b.start))) b.knots
+        = b.coverKnots R := by
+      have e : (((R : Int) - 1) * (b.numFunctions : Int) - 0).toNat = (R - 1) * b.numFunctions := by
+        have : ((R : Int) - 1) * (b.numFunctions : Int) = (((R - 1) * b.numFunctions : ℕ) : Int) := by
+          push_cast [Nat.cast_sub hR1]; ring
+        rw [sub_zero, this, Int.toNat_natCast]
+      rw [e, Int.toNat_zero, ← List.range_eq_range']
+      rfl
+    rw [hfold]
+    simp only [ok_bind]
+    rw [hinit]
+    simp only [ok_bind, npTileIdentity]
+    rw [if_neg (by omega)]
+    simp only [ok_bind, Int.toNat_natCast]
+    -- the loop over the images
+    have hiter : forRange 0 (R : Int)
+        ((Basis.tileIdentity b.numFunctions R : Mat K),
+          ofBasis { order := b.order, knots := b.coverKnots R, periodic := b.periodic }, x)
+        (fun i st22 => do
+          let __x ← PyBasis.insert_knot_fuel (f + 1) st22.2.1 tol st22.2.2
+          let tmp24 ← npMatmul __x.2 st22.1
+          Except.ok (tmp24, __x.1, st22.2.2 + (b.stop - b.start)))
+        = (coverIterM (b.stop - b.start)
+            ({ order := b.order, knots := b.coverKnots R, periodic := b.periodic },
+              Basis.tileIdentity b.numFunctions R, x) R).map coverPhi := by
+      rw [← iter_cover f tol (b.stop - b.start) _ R hsteps R (le_refl R)]
+      exact forRange_const R _ (coverBody f tol (b.stop - b.start))
+    rw [hiter, insertKnot_cover_unfold b x0 x hw hT hcc hn1 hnI, hktn, ← hRdef]
+    cases coverIterM (b.stop - b.start)
+        ({ order := b.order, knots := b.coverKnots R, periodic := b.periodic },
+          Basis.tileIdentity b.numFunctions R, x) R with
+    | error e => rfl
+    | ok st =>
+      obtain ⟨cover, C, y⟩ := st
+      simp only [map_ok, ok_bind, coverPhi, ofBasis_knots]
+      unfold slice
+      have e1 : sliceHi cover.knots.size (some ((b.knots.size : Int) + 1)) = min (b.knots.size + 1) cover.knots.size := by
+        rw [sliceHi_some _ _ (by omega)]; congr 1
+      have e2 : sliceHi C.size (some ((b.numFunctions : Int) + 1)) = min (b.numFunctions + 1) C.size := by
+        rw [sliceHi_some _ _ (by omega)]; congr 1
+      rw [e1, e2]
+      simp only [sliceLo, extract_min]
+      rfl
+
+/-- **`insert_knot`, cover branch** (periodic basis with `1 ≤ n < p + k` functions; `x` the wrapped value).
+    The translated method — `R = -(-(p+k) // n)`, the loop that appends `(R-1)·n` knots, the constructor call for
+    the cover, `np.tile(np.identity(n), (R, 1))`, the loop of `R` recursive calls `cover.insert_knot(new_knot)` with
+    `C = … @ C` and `new_knot += T`, the two slices — equals the hand model `Basis.insertKnot` (whose cover branch is
+    a `foldlM` of `Basis.insertKnotPlain`), provided the constructor accepts the knot vector of the cover (`hinit`;
+    the hand model assumes it) and every pass of the loop satisfies `StepGuard` (`hsteps`: the guards of
+    `insert_knot_fuel_plain` for the recursive call and matching shapes for `@`; they hold for every valid
+    periodic basis, `C04_source_insert_knot_small`). -/
+theorem _root_.PyBasis_insert_knot_eq_cover [FloorRing K] (b : Basis K) (tol x0 x : K) (h1 : 1 ≤ b.order)
+    (hw : wrapX b x0 = .ok x) (k : ℕ) (hk : b.periodic = (k : Int))
+    (hn1 : 1 ≤ b.numFunctions)
+    (hsz : b.order + k + 1 + b.numFunctions = b.knots.size)
+    (hsmall : b.numFunctions < b.order + k) (hT : b.stop - b.start ≠ 0)
+    (hinit : PyBasis.init tol (b.order : Int)
+        (b.coverKnots ((b.order + k + b.numFunctions - 1) / b.numFunctions)) b.periodic
+      = .ok (ofBasis { b with knots := b.coverKnots ((b.order + k + b.numFunctions - 1) / b.numFunctions) }))
+    (hsteps : ∀ j, j < (b.order + k + b.numFunctions - 1) / b.numFunctions → ∀ st,
+      coverIterM (b.stop - b.start)
+        ({ b with knots := b.coverKnots ((b.order + k + b.numFunctions - 1) / b.numFunctions) },
+         Basis.tileIdentity b.numFunctions ((b.order + k + b.numFunctions - 1) / b.numFunctions), x) j = .ok st →
+      StepGuard st) :
+    PyBasis.insert_knot (ofBasis b) tol x0 = (b.insertKnot x0).map (fun r => (ofBasis r.1, r.2)) := by
+  unfold PyBasis.insert_knot
+  exact insert_knot_fuel_cover 998 b tol x0 x h1 hw k hk hn1 hsz hsmall hT hinit hsteps
 
 /-! ## helpers for __init__ -/
 
